@@ -411,6 +411,12 @@ fn failing() -> impl Strategy<Value = Expr> {
     prop_oneof![
         1 => gen::small_lit().prop_map(move |l| Expr::bin(Op::Div, Expr::Num(l), zero())),
         2 => expression().prop_map(move |e| Expr::bin(Op::Div, Expr::Paren(Box::new(e)), zero())),
+        // the failure inside the argument of a call (a call that cannot be made), alone and next to a fact
+        1 => (gen::small_lit(), prop_oneof![Just("round"), Just("floor"), Just("ceil")]).prop_map(move |(l, f)| Expr::Call(f, vec![Expr::bin(Op::Div, Expr::Num(l), zero())])),
+        2 => (expression(), prop_oneof![Just("round"), Just("floor"), Just("ceil")], any::<bool>()).prop_map(move |(e, f, mul)| {
+            let call = Expr::Call(f, vec![Expr::bin(Op::Div, Expr::num(1), zero())]);
+            if mul { Expr::bin(Op::Mul, call, Expr::Paren(Box::new(e))) } else { Expr::bin(Op::Add, Expr::Paren(Box::new(e)), call) }
+        }),
     ]
 }
 
